@@ -10,6 +10,10 @@ def dispatch(prop):
         from . import check_pipeline
         return (lambda tier: check_pipeline.run(prop, tier)), \
                (lambda path: check_pipeline.replay(prop, path))
+    if prop in ('C04', 'C05', 'C06', 'C07'):
+        from . import check_conc
+        return (lambda tier: check_conc.run(prop, tier)), \
+               (lambda path: check_conc.replay(prop, path))
     raise SystemExit(f'no check registered for {prop}')
 
 
